@@ -169,3 +169,13 @@ func (rm *RegistrationManager) VerifTimeoutUsed(reg *DecoyRegistration) bool {
 	to, ok := rm.registeredDecoys.decoysTimeouts[reg.IDString()+reg.PhantomIp.String()]
 	return ok && to.status == regStatusUsed
 }
+
+// VerifParse runs a forwarded registration message through the ingest parser
+// (wire encoding by the protobuf runtime) and returns the registrations it builds.
+func (rm *RegistrationManager) VerifParse(w *pb.C2SWrapper) ([]*DecoyRegistration, error) {
+	b, err := proto.Marshal(w)
+	if err != nil {
+		return nil, err
+	}
+	return rm.parseRegMessage(b)
+}
